@@ -14,7 +14,7 @@ P = {
   "DESIGN.md §4 C14", TECH + "; Full enumeration of redirect shapes"),
 
  "C06": (True,
-  "The version-selection routine the builder calls is evaluated on every registry over the version domain (each version absent/live/yanked x created_at none/before/at/after the cutoff), every requirement, every set of already-selected and cached versions and every date/exclusion configuration, and compared with a declarative four-tier reference; complete enumeration of that bounded domain.",
+  "The version-selection routine the builder calls is evaluated on every registry over the version domain (each version absent/live/yanked x created_at none/before/at/after the cutoff), every requirement, every set of already-selected and cached versions and every date/exclusion configuration, and compared with a declarative four-tier reference; complete enumeration of that bounded domain. A further complete part enumerates version sets with pre-release and build-metadata versions of one release under every iteration order of the registry's version map: the selection must follow the reference and must not depend on the order.",
   "Second part (deviation-bounded): real builds against a scripted registry - up to 3 requirements on one package resolved in visit order, lockfile-seeded selections, cutoff date / exclusions, prefer_cached_jsr_versions with cached manifest subsets, version tags, the cache-busting restart - compared per import with the function-level reference applied in visit order. Trusted: deno_semver's VersionReq::matches and Version ordering (used by both sides).",
   "DESIGN.md §4 C06", TECH + "; Full enumeration of the bounded selection domain against a reference model"),
  "C20": (True,
@@ -39,7 +39,7 @@ P = {
   "Reference fixpoint written over the public data (serialised slot table, redirects, imports, Module::dependencies(), the fast_check field of JS modules - not through dependencies_prefer_fast_check()). Generic worlds have no fast-check modules; the fast-check part supplies them.",
   "DESIGN.md §4 C15", TECH + "; deviation-bounded worlds x all walk options x root sets x skip sets against a reference fixpoint"),
  "C19": (True,
-  "Every history of up to 3 (quick) / 4 (thorough) operations over {build(r0), build(r1), build(r0,r1), build(r0) with a configured type import, edit+reload(m) by the module's own specifier or by a recorded redirecting specifier} is replayed on a live graph for every world (generic worlds and worlds around redirect chains of 1-3 hops; one alternative import list / repaired variant per module; graph kind as a choice) inside the deviation bound; after each operation the live graph is compared with a from-scratch build of the roots so far on the current sources, rebuilds of known roots must be no-ops, and unreachable leftovers must be untouched.",
+  "Every history of up to 3 (quick) / 4 (thorough) operations over {build(r0), build(r1), build(r0,r1), build(r0) with a configured type import, edit+reload(m) by the module's own specifier or by a recorded redirecting specifier} is replayed on a live graph for every world (generic worlds and worlds around redirect chains of 1-3 hops; one alternative import list / repaired variant per module; graph kind as a choice) inside the deviation bound, with two further deviation-bounded parts: twin worlds whose edits keep a module's byte length, optionally sharing one CapturingModuleAnalyzer across builds and reloads (same-length-edits), and redirect-chain worlds (chains); after each operation the live graph is compared with a from-scratch build of the roots so far on the current sources, rebuilds of known roots must be no-ops, and unreachable leftovers must be untouched.",
   "Differential oracle. Error entries compared without referrer. Specifiers that some import loads as an asset are not reloaded (a reload is an attribute-less load).",
   "DESIGN.md §4 C19", TECH + "; exhaustive operation histories up to a depth x deviation-bounded worlds, differential oracle against from-scratch builds"),
  "C03": (True,
@@ -47,11 +47,11 @@ P = {
   "Faults beyond the completed deviation bound and worlds beyond the four fixtures are not covered. Registry files ignore response headers by design; files with embedded module information are not parsed.",
   "DESIGN.md §4 C03", TECH + "; deviation-bounded fault assignment over every loader call (fault enumeration), differential non-interference oracle"),
  "C04": (True,
-  "For 14 collision worlds (two with prefer_cached_jsr_versions and partly cached manifests) and for every core-alphabet world x graph kind, every completion order of the gated Loader futures (and, with the queued executor, every order of polling spawned metadata tasks) and every permutation of the builder's hash-map drains and of the issue order of the cache-only probes is enumerated (Full; deviation-bounded for the largest), plus 0-2 extra suspensions of released futures (deviation-bounded); each run's graph observation incl. error referrers, final lockfile content and multiset of lockfile writes must equal the all-ready run.",
-  "Owns: loader completion order, executor task order, hash-map drain / issue order (3 hook sites), extra suspensions. Scenario worlds are hand-built to collide, the generated ones are complete over the core alphabet; more than ~8 simultaneously outstanding operations are not explored.",
+  "For 16 collision worlds (two with prefer_cached_jsr_versions and partly cached manifests, one with a cache-busting restart, one with pre-release and build-metadata versions of one release) and for every core-alphabet world x graph kind, every completion order of the gated Loader futures (and, with the queued executor, every order of polling spawned metadata tasks) and every permutation of the builder's hash-map drains, of the issue order of the cache-only probes and of the iteration order of the registry's version map is enumerated (Full; deviation-bounded for the largest), plus 0-2 extra suspensions of released futures (deviation-bounded); each run's graph observation incl. error referrers, final lockfile content and multiset of lockfile writes must equal the all-ready run.",
+  "Owns: loader completion order, executor task order, hash-map drain / issue / iteration order (4 hook sites), extra suspensions. Scenario worlds are hand-built to collide, the generated ones are complete over the core alphabet; more than ~8 simultaneously outstanding operations are not explored.",
   "DESIGN.md §4 C04", TECH + "; exhaustive enumeration of completion orders and drain permutations under a controlled scheduler"),
  "C05": (True,
-  "One composite world reaches a remote module statically / dynamically / as text asset / behind a redirect / as declaration / with BOM / with invalid UTF-8, a jsr: package with a sub-path, and an https URL into the registry as module and as asset. Every assignment of lockfile state x served bytes to the 12 resources (+ manifests, redirecting URL, a redirect seeded from the lockfile, embedded module graph, cache probe, an optional reload of one resource afterwards) inside the deviation bound is built with the real builder under a checksum-verifying loader; a monitor over the Loader and Locker call logs decides presentation, admission, retries, redirect rejection and recording.",
+  "One composite world reaches a remote module statically / dynamically / as text asset / behind a redirect / as declaration / with BOM / with invalid UTF-8, a jsr: package with a sub-path (a pre-release version), and an https URL into the registry as module and as asset. Every assignment of lockfile state x served bytes to the 12 resources (+ manifests, redirecting URL, a redirect seeded from the lockfile, embedded module graph, cache probe, stale registry metadata that forces the cache-busting restart, an optional reload of one resource afterwards) inside the deviation bound is built with the real builder under a checksum-verifying loader; a monitor over the Loader and Locker call logs decides presentation, admission, retries, redirect rejection and recording.",
   "The scripted loader verifies presented checksums like a real cache. prefer_cached_jsr_versions is off. One world; assignments bounded by deviations from all-honest/empty-lockfile.",
   "DESIGN.md §4 C05", TECH + "; deviation-bounded enumeration of lockfile x tamper assignments with a call-log monitor"),
  "C01": (True,
@@ -67,11 +67,11 @@ P = {
   "Premise of the statement: the embedded information is produced by this analyser from those sources (the fixture does exactly that).",
   "DESIGN.md §4 C13", TECH + "; enumeration of values / programs / packages, round-trip and differential oracles"),
  "C07": (True,
-  "Registries of 2 packages x 2 versions (5 exports shapes, per-file import lists over relative / jsr: / npm: / https-into-registry / self / unknown-export forms) and importing programs of <= 3 imports - optionally built in two steps on one graph, with lockfile-seeded selections, or with passthrough_jsr_specifiers - are built with the real builder inside the deviation bound; redirects, mappings, exports used, package dependency edges and unknown-export errors are compared with a reference recomputed from the fixture; package URL <-> name@version is round-tripped for every file and probed with near-miss URLs.",
+  "Registries of 2 packages x 2 versions (5 exports shapes, per-file import lists over relative / jsr: / npm: / https-into-registry / self / unknown-export forms) and importing programs of <= 3 imports - optionally built in two steps on one graph, with lockfile-seeded selections, or with passthrough_jsr_specifiers - are built with the real builder inside the deviation bound; redirects, mappings, exports used, package dependency edges and unknown-export errors are compared with a reference recomputed from the fixture; package URL <-> name@version is round-tripped for every file and probed with near-miss URLs; a complete part (url-mapping) enumerates every URL from 2 schemes x 9 look-alike authorities x paths of <= 4 segments over 9 segment texts and compares package_url_to_nv with an origin + path-segment reference, and the round trip through package_url.",
   "Every requirement of the alphabet matches exactly one published version (selection order is C06's subject). Default JsrUrlProvider only.",
   "DESIGN.md §4 C07", TECH + "; deviation-bounded enumeration of registries x importing programs against reference bookkeeping"),
  "C09": (True,
-  "Every generated package inside the deviation bound (3 declaration slots x ~110 templates (the first slot all of them, the later slots ~80) x 23 reference forms, nested export-* barrels, 7 helper-module variants, 3 entrypoint sets, registry package or workspace member, one or two build + fast-check steps on one graph) and every package of the fast-check spec corpus goes through the real fast-check transform; each emitted module is re-parsed with scope analysis and checked for dangling references, imports of names the emitted counterpart does not export, unresolvable relative specifiers and source-map well-formedness / identifier fidelity.",
+  "Every generated package inside the deviation bound (3 declaration slots x ~125 templates (the first slot all of them, the later slots ~80) x 23 reference forms, nested export-* barrels, 7 helper-module variants, 3 entrypoint sets, registry package or workspace member, one or two build + fast-check steps on one graph) and every package of the fast-check spec corpus goes through the real fast-check transform; each emitted module is re-parsed with scope analysis and checked for dangling references, imports of names the emitted counterpart does not export, unresolvable relative specifiers and source-map well-formedness / identifier fidelity.",
   "Emitted text is re-parsed with the same swc parser the subject uses (common-mode risk); export / signature / unresolved-identifier extractors and the VLQ source-map decoder are the harness's own. Packages that get diagnostics instead of output are only counted.",
   "DESIGN.md §4 C09-C11", TECH + "; deviation-bounded enumeration of generated packages + full corpus, closure oracle on the re-parsed output"),
  "C10": (True,
